@@ -260,7 +260,7 @@ Definition host_set (s : rstate) (k : str) (v : value) : rstate :=
      (upd_vars (dat s) (st_set (vars (dat s)) k v)
                (match v with VNum n => SetN k n | VBool b => SetB k b | VStr x => SetS k x end)).
 
-Definition fuel_per_next : nat := 5000.
+Definition fuel_per_next : nat := 1500.
 
 Definition run_op (d : dialogue) (rs : list rstate) (sn : snaps) (o : rop)
   : sexp * list rstate * snaps :=
@@ -304,7 +304,7 @@ Definition run_op (d : dialogue) (rs : list rstate) (sn : snaps) (o : rop)
 Fixpoint run_ops (d : dialogue) (rs : list rstate) (sn : snaps) (ops : list rop) (acc : list sexp)
   : list sexp * list rstate :=
   match ops with
-  | [] => (rev acc, rs)
+  | [] => (frev acc, rs)
   | o :: r => let '(out, rs', sn') := run_op d rs sn o in run_ops d rs' sn' r (out :: acc)
   end.
 
@@ -329,8 +329,8 @@ Fixpoint seed_to_int64 (s : str) (acc : Z) : option Z :=
   end.
 
 Definition enc_final (host_storer : bool) (s : rstate) : sexp :=
-  tagged "runner" [SL (map enc_hevent (rev (hlog (fe (dat s)))));
-                   SL (if host_storer then map enc_sevent (rev (slog (dat s))) else [])].
+  tagged "runner" [SL (map enc_hevent (frev (hlog (fe (dat s)))));
+                   SL (if host_storer then map enc_sevent (frev (slog (dat s))) else [])].
 
 (* (runner (seed s int (stream...)) (storer b) (init kv...) (hcmds n...) (sched ...) (nrunners n)
            (nodes dialogue) (readers ...) (layout ...) (ops ...)) *)
